@@ -70,6 +70,10 @@ def _worker_task(task):
     ob = _WORKER['obs'][name]
     body = ob.body if which == 'main' else ob.twin
     opts = dict(ob.opts)
+    if 'cross_check_every' not in opts:
+        opts['cross_check_every'] = int(os.environ.get('VERIF_CROSSCHECK_EVERY', '25' if os.environ.get('VERIF_TIER_RUNNING') == 'thorough' else '200'))
+    if os.environ.get('VERIF_MAX_SECONDS'):
+        opts['max_seconds'] = float(os.environ['VERIF_MAX_SECONDS'])
     if which == 'twin':
         opts['max_paths'] = min(opts.get('max_paths', 20000), 400)
     try:
@@ -101,6 +105,7 @@ def match_known(entry_list, ob_name, label):
 
 def run_check(pid, tier, modname, stub_modules, level_text, assumptions, bounds, seed=0, replay=None, procs=None, only=None):
     t0 = time.time()
+    os.environ['VERIF_TIER_RUNNING'] = tier
     assert_repo_cirq()
     mod = importlib.import_module(modname)
     obs = mod.obligations(tier)
@@ -169,6 +174,7 @@ def run_check(pid, tier, modname, stub_modules, level_text, assumptions, bounds,
                 results.append(r)
 
     # ---------------- phase C: triage + replay ----------------------------------------------
+    cc = {'cc_total': 0, 'cc_agree': 0, 'cc_error': 0, 'cc_s': 0.0}
     agg = {k: 0 for k in ('paths', 'ok', 'expected_exc', 'infeasible', 'vcs', 'vcs_trivial', 'vcs_linear', 'vcs_exact', 'entries', 'queries', 'decisions', 'unknown', 'tv_compared')}
     solver_s = 0.0
     functions = set()
@@ -204,6 +210,8 @@ def run_check(pid, tier, modname, stub_modules, level_text, assumptions, bounds,
         for k in agg:
             agg[k] += r.get(k, 0)
         solver_s += r['solver_s']
+        for k in cc:
+            cc[k] += r.get(k, 0)
         functions.update(r['functions'])
         per_ob[r['name']] = {'paths': r['paths'], 'vcs': r['vcs'], 'escapes': len(r['escapes']), 'wall_s': round(r['wall_s'], 2)}
         for e in r['escapes']:
@@ -276,6 +284,7 @@ def run_check(pid, tier, modname, stub_modules, level_text, assumptions, bounds,
             'solver_queries': agg['queries'],
             'solver_seconds': round(solver_s, 3),
             'solver': 'z3 ' + _z3_version(),
+            'second_solver': {'name': 'cvc5 (python wheel)', 'vcs_re_decided': cc['cc_total'], 'agreed': cc['cc_agree'], 'errors_or_unknown': cc['cc_total'] - cc['cc_agree'], 'seconds': round(cc['cc_s'], 2), 'policy': 'every N-th VC of the linear-abstraction and trig-free exact stages is dumped as SMT-LIB2 and re-decided; a definite disagreement makes the VC inconclusive'},
             'functions_encoded': sorted(functions),
             'functions_encoded_count': len(functions),
             'bounds': bounds,
